@@ -1,0 +1,28 @@
+//go:build verif
+
+package main
+
+import v2 "github.com/josephburnett/jd/v2"
+
+// specExitCode: 1 when the inputs differ, 0 when they do not.
+func specExitCode(haveDiff bool) int {
+	if haveDiff {
+		return 1
+	}
+	return 0
+}
+
+// specOptIn: option x occurs in opts.
+func specOptIn(opts []v2.Option, x v2.Option) bool {
+	return existsInt(0, len(opts), func(i int) bool { return opts[i] == x })
+}
+
+// existsInt reports whether f holds for some i in [lo, hi).
+func existsInt(lo, hi int, f func(i int) bool) bool {
+	for i := lo; i < hi; i++ {
+		if f(i) {
+			return true
+		}
+	}
+	return false
+}
